@@ -146,6 +146,8 @@ def typed_grammar(depth):
                                                                                               "dirichlet_eta"]
     rounding = st.builds(lambda o, x, k, q: [o, ["add", ["mul", ["rational", k, q], x], ["symbol", "t"]]],
                          st.sampled_from(["floor", "ceiling", "truncate", "primepi", "primorial"]), xs, st.integers(1, 9), st.integers(2, 7))
+    plain = st.one_of(S, st.builds(lambda a, b, lo, ro: ["interval", a, b, lo, ro], real, real, st.booleans(), st.booleans()),
+                      st.builds(lambda a, b: ["finiteset", ["list", a, b]], E, E))
     for _ in range(depth):
         e, bo, s = E, Bo, S
         lst = lambda t, lo, hi: st.lists(t, min_size=lo, max_size=hi).map(lambda v: ["list"] + v)
@@ -176,7 +178,8 @@ def typed_grammar(depth):
             st.builds(lambda a, b, lo, ro: ["interval", a, b, lo, ro], real, real, st.booleans(), st.booleans()),
             st.builds(lambda v: ["finiteset", v], lst(e, 1, 4)),
             st.builds(lambda o, v: [o, v], st.sampled_from(["set_union", "set_intersection"]), lst(s, 2, 3)),
-            st.builds(lambda a, b: ["set_complement", a, b], s, s),
+            # (operands without ImageSet: set_complement of two ImageSets recurses forever in the library, sets.cpp:1687)
+            st.builds(lambda a, b: ["set_complement", a, b], plain, plain),
             st.builds(lambda x, c: ["conditionset", x, c], xs, bo),
             st.builds(lambda x, a, b: ["imageset", x, a, b], xs, e, s),
         )
@@ -192,12 +195,30 @@ def grammar(depth):
     return GRAMMAR[depth]
 
 
-def resolve(r, n):
-    """["ref", j] -> register of definition j mod n (a symbol when there is no earlier definition)"""
+SAFE_HEADS = {"add", "sub", "mul", "list", "function_symbol", "finiteset", "Eq", "Ne", "Lt", "Le", "Gt", "Ge", "piecewise",
+              "contains", "and", "or", "xor", "nand", "nor", "xnor", "not", "set_union", "set_intersection", "set_complement",
+              "conditionset", "imageset", "interval", "max", "min"}
+
+
+def resolve(r, n, big=(), unsafe=False):
+    """["ref", j] -> register of definition j mod n (a symbol when there is no earlier definition).  Definitions listed
+    in `big` hold multi-limb numbers: they are referenced only from positions that do not evaluate (sums, products,
+    containers, relations), never as an argument of pow or of a function (2**(2**70), gamma(2**70) are resource
+    blow-ups of the construction, not of the property)"""
     if isinstance(r, list):
         if len(r) == 2 and r[0] == "ref" and isinstance(r[1], int):
-            return R(r[1] % n) if n > 0 else ["symbol", "r"]
-        return [resolve(x, n) for x in r]
+            if n <= 0:
+                return ["symbol", "r"]
+            j = r[1] % n
+            if unsafe and j in big:
+                ok = [i for i in range(n) if i not in big]
+                if not ok:
+                    return ["symbol", "r"]
+                j = ok[r[1] % len(ok)]
+            return R(j)
+        head = r[0] if r and isinstance(r[0], str) else None
+        inner = unsafe or (head is not None and head not in SAFE_HEADS and head not in ("symbol", "integer", "rational", "$"))
+        return [resolve(x, n, big, inner) for x in r]
     return r
 
 
@@ -217,25 +238,39 @@ def cases():
     unsupported = st.builds(lambda k, wrap: {"kind": "expr", "defs": [["ser_unsupported", k]],
                                              "root": (["finiteset", ["list", R(0), ["symbol", "x"]]] if wrap else R(0))},
                             st.integers(0, 11), st.booleans())
-    # multi-limb integers, big rationals / complexes enter as whole definitions (function arguments stay small)
-    defs = st.lists(st.one_of(E2, E2, E2, pools.numbers(True)), min_size=1, max_size=4).map(
-        lambda ds: [resolve(d, i) for i, d in enumerate(ds)])
+    # multi-limb integers, big rationals / complexes enter as whole definitions (marked {"big": recipe}); function and pow
+    # arguments never reference them (resolve)
+    one_def = st.one_of(E2, E2, E2, pools.numbers(True).map(lambda r: {"big": r}))
 
-    def mk_expr(ds, w, j, tail, free):
+    def mk_defs(ds):
+        big = {i for i, d in enumerate(ds) if isinstance(d, dict)}
+        out = []
+        for i, d in enumerate(ds):
+            out.append(d["big"] if isinstance(d, dict) else resolve(d, i, {j for j in big if j < i}))
+        return {"defs": out, "big": sorted(big)}
+    defs = st.lists(one_def, min_size=1, max_size=4).map(mk_defs)
+
+    def mk_expr(dd, w, j, tail, free):
+        ds, big = dd["defs"], set(dd["big"])
         n = len(ds)
         if w < len(SHARE_WRAP):
-            root = SHARE_WRAP[w](R(j % n))
-            if tail is not None:
-                root = ["add", root, resolve(tail, n)]
+            ok = [i for i in range(n) if i not in big] or None
+            if ok is None:
+                root = resolve(free, n, big)
+            else:
+                root = SHARE_WRAP[w](R(ok[j % len(ok)]))
+                if tail is not None:
+                    root = ["add", root, resolve(tail, n, big)]
         else:
-            root = resolve(free, n)
+            root = resolve(free, n, big)
         return {"kind": "expr", "defs": ds, "root": root}
     expr = st.builds(mk_expr, defs, st.integers(0, len(SHARE_WRAP) + 2), st.integers(0, 3), st.one_of(st.none(), E2),
                      st.one_of(E3, E3, B3, S3))
 
-    def mk_matrix(ds, r, c, elems):
+    def mk_matrix(dd, r, c, elems):
+        ds, big = dd["defs"], set(dd["big"])
         n = len(ds)
-        return {"kind": "matrix", "defs": ds, "rows": r, "cols": c, "elems": [resolve(e, n) for e in elems[:r * c]]}
+        return {"kind": "matrix", "defs": ds, "rows": r, "cols": c, "elems": [resolve(e, n, big) for e in elems[:r * c]]}
     matrix = st.builds(mk_matrix, defs, st.integers(0, 3), st.integers(1, 3),
                        st.lists(st.one_of(st.integers(0, 3).map(lambda j: ["ref", j]), E2), min_size=9, max_size=9))
     return gen.weighted([(12, expr), (2, matrix), (1, unsupported)])
@@ -299,6 +334,10 @@ def special_cases():
     return out
 
 
+class ResourceNoise(Exception):
+    pass
+
+
 class C19(Check):
     pid = "C19"
     exe = "driver_ser"
@@ -340,7 +379,14 @@ class C19(Check):
         if self.drv is None:
             self.drv = engine.Driver(self.variant, self.exe, self.timeout,
                                      env={"ASAN_OPTIONS": engine.ASAN_OPTIONS + ":quarantine_size_mb=0:thread_local_quarantine_size_kb=0"})
-        return self.drv.run(stmts, timeout)
+        try:
+            return self.drv.run(stmts, timeout)
+        except engine.DriverCrash as e:
+            # GMP aborts the process when a number does not fit in memory (x**(10**10) while BUILDING a case):
+            # resource exhaustion of the construction, not a serialization failure
+            if any(sig in e.stderr for sig in ("GNU MP: Cannot allocate memory", "gmp: overflow in mpz type")):
+                raise ResourceNoise()
+            raise
 
     def enumerate(self, tier):
         return special_cases()
@@ -350,6 +396,12 @@ class C19(Check):
 
     # ------------------------------------------------------------------
     def judge(self, case):
+        try:
+            self._judge(case)
+        except ResourceNoise:
+            self.skip("resource:gmp_alloc")
+
+    def _judge(self, case):
         if case["kind"] == "matrix":
             return self.judge_matrix(case)
         defs = self.usable_defs(case["defs"])
